@@ -237,15 +237,16 @@ def r02j(prog: Program, chk: Check) -> None:
             if isinstance(r.value, ast.Call) and isinstance(r.value.func, ast.Name) and prog.has_func(m, r.value.func.id):
                 if any(norm(t) == pol and not inbody for t, inbody in guards_of(r, call)):
                     helper = r.value.func.id
-    # the isinstance implementation sets the flag
-    impl = prog.func("implementation", "_isinstance_impl")
-    built = calls_in(impl, "IsAssignablePredicate")
-    if not built:
-        raise AnchorError("_isinstance_impl does not build an IsAssignablePredicate")
-    for c in built:
-        v = kw(c, flag) if flag else None
-        chk.ob("R02.j", "implementation::_isinstance_impl::predicate-is-runtime-check", isinstance(v, ast.Constant) and v.value is True, prog.site("implementation", c),
-               f"the predicate narrowing on isinstance() must be built with {flag or '<runtime flag>'}=True")
+    # the isinstance and issubclass implementations set the flag
+    for impl_name, builtin in (("_isinstance_impl", "isinstance"), ("_issubclass_impl", "issubclass")):
+        impl = prog.func("implementation", impl_name)
+        built = calls_in(impl, "IsAssignablePredicate")
+        if not built:
+            raise AnchorError(f"{impl_name} does not build an IsAssignablePredicate")
+        for c in built:
+            v = kw(c, flag) if flag else None
+            chk.ob("R02.j", f"implementation::{impl_name}::predicate-is-runtime-check", isinstance(v, ast.Constant) and v.value is True, prog.site("implementation", c),
+                   f"the predicate narrowing on {builtin}() must be built with {flag or '<runtime flag>'}=True")
     # promoted-type table agrees with the promotion edges
     rows: Dict[str, Set[str]] = {}
     table_name = None
